@@ -183,6 +183,12 @@ def handle_quic_packet(packet: Packet, keylog, quic_sessions: list[QuicSession],
 
 def run():
     """Starts the program"""
+    # start from a clean state: nothing processed by an earlier call of run() in this process may leak into this one
+    server_ports[:] = [443, 44330]
+    keylog.clear()
+    sessions.clear()
+    quic_sessions.clear()
+
     args = arg_parser_init()
     keep_original_ports = args.keep_original_ports
     portmap = get_port_map(args)
